@@ -3,7 +3,7 @@
    (Bcast.v, the only place where panrpc closes or sends on shared channels), a panic outside a
    recovered path, a result-arity mismatch of a stub (Link.v: the recover path always yields the
    declared number of results — [CReturned] carries a value and an error for both arities). *)
-From Verif Require Import Base Bcast BcastProofs Link LinkProofs LinkInv16.
+From Verif Require Import Base Bcast BcastProofs Link LinkProofs LinkInv16 LinkInvB.
 
 (* The pending-call table (Broadcaster) never crashes, for all client programs and schedules —
    in particular for the registry's use of it: waiter Receive/receive/Free, publisher Publish,
@@ -39,3 +39,22 @@ Proof.
   eexists. split; [vm_compute; reflexivity|reflexivity].
 Qed.
 Print Assumptions D1_refuted_C05.
+
+(* no internal deadlock: in every reachable state of the endpoint a blocked infrastructure thread
+   still has a wake-up source that can fire (see Props/C03.v nobody_waits_in_vain for the reading) *)
+Theorem no_internal_deadlock :
+  forall calls s, lreachable fixed calls s ->
+    (forall i, tget (threads s) (TCall i) = Some CBlocked -> waiter_alive (tget (threads s) (TWaiter i)) = true) /\
+    (forall i ent, tget (threads s) (TWaiter i) = Some (WBlocked ent) ->
+       memN (c_ctx (nth i calls dflt_call)) (cancelled s) = false /\ le_done (ents s) (cancelled s) ent = false) /\
+    (forall n ent x e, tget (threads s) (TPub n) = Some (PBlocked ent x e) -> le_done (ents s) (cancelled s) ent = false) /\
+    (forall i n ent x e, tget (threads s) (TWaiter i) = Some (WBlocked ent) -> tget (threads s) (TPub n) = Some (PBlocked ent x e) -> False).
+Proof.
+  intros calls s Hr. destruct (InvB_reachable calls s Hr) as ((H1 & H3 & H4) & HE). repeat split.
+  - exact H1.
+  - apply (HE _ _ H).
+  - apply (HE _ _ H).
+  - intros n ent x e H. apply (HE _ _ H).
+  - exact H3.
+Qed.
+Print Assumptions no_internal_deadlock.
